@@ -114,6 +114,35 @@ type GroupKey struct {
 	Group string
 }
 
+// groupNode represents a group identity (type + group name) in the dependency
+// graph. It is what consumers of the group depend on; it depends on all members.
+type groupNode struct {
+	key     GroupKey
+	members []*reflection.Dependency
+}
+
+func newGroupNode(key GroupKey, members []*Descriptor) *groupNode {
+	n := &groupNode{key: key, members: make([]*reflection.Dependency, 0, len(members))}
+	for _, member := range members {
+		if member == nil {
+			continue
+		}
+
+		n.members = append(n.members, &reflection.Dependency{
+			Type:  member.Type,
+			Key:   member.Key,
+			Group: member.Group,
+		})
+	}
+
+	return n
+}
+
+func (n *groupNode) GetType() reflect.Type                     { return n.key.Type }
+func (n *groupNode) GetKey() any                               { return nil }
+func (n *groupNode) GetGroup() string                          { return n.key.Group }
+func (n *groupNode) GetDependencies() []*reflection.Dependency { return n.members }
+
 // NewCollection creates a new empty Collection instance.
 //
 // Example:
@@ -199,6 +228,23 @@ func (sc *collection) doBuild(ctx context.Context) (Provider, error) {
 			return nil, &BuildError{
 				Phase:   "graph",
 				Details: fmt.Sprintf("failed to add provider %v", formatType(descriptor.Type)),
+				Cause:   err,
+			}
+		}
+	}
+
+	// A dependency on a group is a dependency on every member of that group:
+	// give the group identity a node whose dependencies are its members, so
+	// that cycle detection and the construction order see those edges.
+	for groupKey, members := range sc.groups {
+		if len(members) == 0 {
+			continue
+		}
+
+		if err := g.AddProviderDeferred(newGroupNode(groupKey, members)); err != nil {
+			return nil, &BuildError{
+				Phase:   "graph",
+				Details: fmt.Sprintf("failed to add group %q of %v", groupKey.Group, formatType(groupKey.Type)),
 				Cause:   err,
 			}
 		}
